@@ -24,6 +24,9 @@ pub struct Ctx<'a> {
     pub stats: Stats,
     pub digest: u64,
     pub verif: String,
+    /// C14: the structured case the next plan was rendered from (goes into
+    /// the replay file if the process dies while executing it)
+    pub pending_c14: Option<crate::c14::Case>,
 }
 
 impl<'a> Ctx<'a> {
@@ -38,7 +41,7 @@ impl<'a> Ctx<'a> {
                     run: self.run,
                     violation: Violation::new("I1-abort", "the process died while executing this plan".to_string()),
                     plan: plan.clone(),
-                    c14: None,
+                    c14: self.pending_c14.clone(),
                     proc: None,
                     minimised: false,
                     note: String::new(),
@@ -125,7 +128,7 @@ pub fn worker_main(chan: &Channel, a: WorkerArgs) {
 }
 
 fn run_one(chan: &Channel, a: &WorkerArgs, corpus: &Corpus, i: u64) {
-    let mut ctx = Ctx { chan, prop: a.prop.clone(), seed: a.seed, run: i, run_seed: run_seed(a.seed, &a.prop, i), step: 0, tier: a.tier.clone(), dump: a.dump.clone(), stats: Stats::default(), digest: 0, verif: a.verif.clone() };
+    let mut ctx = Ctx { chan, prop: a.prop.clone(), seed: a.seed, run: i, run_seed: run_seed(a.seed, &a.prop, i), step: 0, tier: a.tier.clone(), dump: a.dump.clone(), stats: Stats::default(), digest: 0, verif: a.verif.clone(), pending_c14: None };
     let violations: Vec<Replay> = match a.prop.as_str() {
         "C03" => crate::c03::run(&mut ctx, corpus),
         "C10" => crate::c10::run(&mut ctx, corpus),
